@@ -1051,9 +1051,19 @@ func (bc *Blockchain) resetStateInternal(height uint32, stage stateChangeStage) 
 			keysCnt             = new(int)
 		)
 		for i := height + 1; i <= currHeight; i++ {
-			_, err := upperCache.DeleteBlock(bc.GetHeaderHash(i))
+			hdr, err := bc.GetHeader(bc.GetHeaderHash(i))
+			if err != nil {
+				return fmt.Errorf("error while retrieving header %d: %w", i, err)
+			}
+			_, err = upperCache.DeleteBlock(bc.GetHeaderHash(i))
 			if err != nil {
 				return fmt.Errorf("error while removing block %d: %w", i, err)
+			}
+			// DeleteBlock drops the header as well, but the header chain must stay
+			// walkable until the headers stage for the reset to be resumable.
+			err = upperCache.StoreHeader(hdr)
+			if err != nil {
+				return fmt.Errorf("error while keeping header %d: %w", i, err)
 			}
 			blocksCnt++
 			if blocksCnt == persistBatchSize {
